@@ -53,7 +53,7 @@ def _covers_positive(test, name):
         if isinstance(n, ast.Constant) and not isinstance(n.value, (int, type(None))):
             return None
     try:
-        code = compile(ast.Expression(test), '<status-test>', 'eval')
+        code = compile(ast.fix_missing_locations(ast.Expression(ast.parse(src(test), mode='eval').body)), '<status-test>', 'eval')
         vals = [bool(eval(code, {'__builtins__': {}}, {name: v})) for v in (1, 3)]
     except Exception:
         return None
@@ -78,6 +78,21 @@ def status_verdict(fn):
                 # scipy: info > 0 = iteration limit reached without convergence, info < 0 = illegal input / breakdown.
                 # The test must be true for info > 0 (decided by evaluating it on the sample statuses 3 and 1).
                 cov = _covers_positive(iff.test, info)
+                if cov is False and _covers_positive(ast.UnaryOp(op=ast.Not(), operand=iff.test), info):
+                    # the test selects the CONVERGED case: the corrective code is the else branch, or what follows an
+                    # early exit of the converged case
+                    blk = None
+                    par = parent(iff)
+                    if iff.orelse:
+                        blk = iff.orelse
+                    elif guards.always_exits(iff.body):
+                        for fld in ('body', 'orelse', 'finalbody'):
+                            b_ = getattr(par, fld, None)
+                            if isinstance(b_, list) and iff in b_:
+                                blk = b_[b_.index(iff) + 1:]
+                    if blk:
+                        body = blk
+                        cov = True
                 if cov is False:
                     return False, 'if %s: ...' % src(iff.test), iff, \
                         'the corrective branch is not taken for %s > 0, the status scipy returns when the iteration limit is reached ' \
